@@ -343,6 +343,25 @@ def run_shard(rec):
     idx += 1
     if rec.mine(idx):
         run_parent_styles(rec, styles)
+    # repetition / list / option forms over every kind of leaf in grammars that declare ignore patterns
+    # (each element is a token of its own: ignorable text may stand between any two of them)
+    LEAVES = [('re-class', ('re', '[ab]', False)), ('re-lit', ('re', 'a', False)), ('str', ('str', 'a')), ('istr', ('istr', 'a')), ('ref', ('ref', 'Rl')),
+              ('seq', ('seq', [('str', 'a'), ('str', 'b')]))]
+    FORMS = [('star', lambda x: ('star', x)), ('plus', lambda x: ('plus', x)), ('rep02', lambda x: ('rep', x, 0, 2)), ('rep2_', lambda x: ('rep', x, 2, None)),
+             ('rep2', lambda x: ('rep', x, 2, 2)), ('sep', lambda x: ('sep', x, ('str', ','), {'_op': '//'})),
+             ('sept', lambda x: ('sep', x, ('str', ','), {'allow_trailer': True, '_op': '/?'})), ('opt', lambda x: ('opt', x)), ('left', lambda x: ('left', x, ('star', x)))]
+    ign_inputs = [t for t in work.inputs_for('ab ,', 4) if ' ' in t or len(t) <= 2]
+    for ltag, leaf in LEAVES:
+        for ftag, mk in FORMS:
+            for itag, ign in (('anon', ('ignore', ('re', ' +', False))), ('named', ('irule', 'Sp', ('str', ' ')))):
+                idx += 1
+                if not rec.mine(idx):
+                    continue
+                if quick and (idx // 16) % 2 != rec.seed % 2:
+                    continue
+                G = dict(name=None, extends=None, stmts=[('rule', 'start', None, ('seq', [mk(leaf), ('re', '[ab, ]*', False)])),
+                                                         ('rule', 'Rl', None, ('re', '[ab]', False)), ign])
+                run_ast(rec, G, ign_inputs, ('ignore-shape', ltag, ftag, itag), styles)
     # bounds whose literals differ in digit count (text vs number comparison of the bounds)
     wide_inputs = ['a' * k + t for k in range(0, 14) for t in ('', 'b')]
     for m, n in [(2, 10), (9, 12), (10, 11), (0, 10), (10, None), (None, 10), (12, 12), (1, 100), (9, 10), (3, 3)]:
